@@ -7,11 +7,12 @@ export CARGO_NET_OFFLINE=true
 cargo build --offline --release --workspace --exclude cli 2>&1 | tail -3
 cargo build --offline --profile cli -p cli 2>&1 | tail -3
 cargo build --offline --release -p async-mock --features wakeup 2>&1 | tail -1
-# the probe crate (rustc command line + wit-bindgen runtime for C05, C06, C09, C32) and the libc shim for clang --target=wasm32
+# the probe crate (rustc command line + wit-bindgen runtime for C05-C09, C32) and the libc shim for clang --target=wasm32
 cd .. && python3 -c "
 import sys; sys.path.insert(0, '.')
 from vlib import rustprobe, surface_scan
 from vlib.core import workdir
 rustprobe.probe_rustc(workdir('setup'))
+rustprobe.probe_rustc(workdir('setup'), hook=True)      # C08: the runtime with the verification cfg
 surface_scan.ensure_libc()
 print('probe ok')" 2>&1 | tail -1
